@@ -182,7 +182,8 @@ func VerifC03_RefreshAttester() {
 func VerifC03_EpochTicker() {
 	vstub.SPEChoices = []uint64{4}
 	e := newCtlEnv()
-	e.s.validatingAccountsProvider = &hValidating{}
+	// (no validator of Vouch's may be active in the epoch that begins: one may be in the next)
+	e.s.validatingAccountsProvider = &hValidating{none: vnd.Bool("no-validator-active-in-the-current-epoch")}
 	pd := &hPropDuties{}
 	e.s.proposerDutiesProvider = pd
 	cur := uint64(e.ct.Cur)
@@ -210,17 +211,33 @@ func VerifC20_SubscriptionInfosBounded() {
 	vstub.SPEChoices = []uint64{4}
 	e := newCtlEnv()
 	cur := uint64(e.ct.Cur)
-	vnd.Assume(cur >= 40 && cur < 1<<30)
+	vnd.Assume(cur < 1<<30) // any slot, the first epochs of a chain included
 	epoch := phase0.Epoch(cur / 4)
+	present := map[phase0.Epoch]bool{}
 	for back := 0; back <= 5; back++ {
+		if uint64(epoch)+1 < uint64(back) {
+			continue // before genesis
+		}
 		if vnd.Bool("epoch-present") {
-			e.s.subscriptionInfos[epoch+1-phase0.Epoch(back)] = map[phase0.Slot]map[phase0.CommitteeIndex]*beaconcommitteesubscriber.Subscription{}
+			k := epoch + 1 - phase0.Epoch(back)
+			present[k] = true
+			e.s.subscriptionInfos[k] = map[phase0.Slot]map[phase0.CommitteeIndex]*beaconcommitteesubscriber.Subscription{}
 		}
 	}
 	e.s.HandleHeadEvent(&apiv1.Event{Data: &apiv1.HeadEvent{Slot: phase0.Slot(cur), Block: phase0.Root{1}}})
 	vnd.Quiesce()
 	for k := range e.s.subscriptionInfos {
 		vnd.Assert(k+1 >= epoch, "C20.subscriptions.nothing-older-than-previous-epoch-after-a-head-event")
+	}
+	// what the attestation jobs of this epoch and the next will look up is still there
+	for _, k := range []phase0.Epoch{epoch, epoch + 1} {
+		if present[k] {
+			_, still := e.s.subscriptionInfos[k]
+			vnd.Assert(still, "C14.subscriptions.current-and-next-epoch-kept-by-a-head-event")
+		}
+	}
+	if epoch == 0 {
+		vnd.Cover("C20.subscriptions.first-epoch-of-the-chain")
 	}
 	vnd.Cover("C20.subscriptions.checked")
 }
